@@ -909,6 +909,69 @@ pub struct WCheck {
     pub runs_thorough: u64,
 }
 
+/// Engine X wrapper: the real control-socket connection task on socket pairs; only the
+/// violations of `prop` are kept (the wire oracle knows rules of C18 and C20).
+pub struct XCheck {
+    pub prop: &'static str,
+    pub runs_quick: u64,
+    pub runs_thorough: u64,
+}
+
+impl Check for XCheck {
+    fn id(&self) -> &'static str {
+        self.prop
+    }
+    fn engine(&self) -> &'static str {
+        "X"
+    }
+    fn level(&self) -> &'static str {
+        "exploration"
+    }
+    fn runs(&self, tier: Tier) -> u64 {
+        match tier {
+            Tier::Quick => self.runs_quick,
+            Tier::Thorough => self.runs_thorough,
+        }
+    }
+    fn generate(&self, run_seed: u64, _index: u64, _tier: Tier) -> Value {
+        crate::xsim::generate(run_seed).to_value()
+    }
+    fn execute(&self, plan: &Value, want_excerpt: bool) -> RunOutcome {
+        let plan = match crate::xsim::XPlan::from_value(plan) {
+            Ok(p) => p,
+            Err(e) => panic!("{e}"),
+        };
+        let mut o = crate::xsim::execute(&plan, want_excerpt);
+        let prefix = format!("{}.", self.prop);
+        o.violations.retain(|v| v.monitor.starts_with(&prefix));
+        o
+    }
+    fn shrink(&self, plan: &Value) -> Vec<Value> {
+        match crate::xsim::XPlan::from_value(plan) {
+            Ok(p) => crate::xsim::shrink(&p).into_iter().map(|p| p.to_value()).collect(),
+            Err(_) => Vec::new(),
+        }
+    }
+    fn rule(&self) -> String {
+        "one run = 1..3 clients on socket pairs served by the real control-socket connection task, a publisher, and a seeded schedule: request streams cut into arbitrary writes, last request with or without a newline, half-closes, event bursts, server tasks allowed to run not at all / a few polls / to quiescence between two actions. Per client: responses equal, in order, what the synchronous dispatcher answers to the same lines (subscription methods: presence and id only), the configuration ends equal, every event is for one of the client's own subscriptions under its topic and the publication counters strictly increase per subscription".into()
+    }
+    fn assumptions(&self) -> Vec<String> {
+        vec![
+            "the stdin entry point is BufRead::lines + trim + dispatch + println (mirrored; the dispatcher itself is real)".into(),
+            "the kernel's socket pair is real; every task that touches it runs on one thread under a seeded current-thread runtime, and the batch's determinism spot check guards replay".into(),
+        ]
+    }
+    fn real_components(&self) -> Vec<String> {
+        vec!["src/control_socket.rs handle() (through hook H12), control::dispatch_async / dispatch, SubscriptionHub, DynamicConfig, tokio UnixStream pair".into()]
+    }
+    fn stub_components(&self) -> Vec<String> {
+        vec!["[X] listener accept loop and socket file: each connection is a socket pair created by the simulator".into(), "[X] stdin reader thread: mirrored as lines + trim + dispatch".into()]
+    }
+    fn expected_probes(&self) -> Vec<&'static str> {
+        vec!["x.client_judged", "x.second_event_on_subscription"]
+    }
+}
+
 fn w_profile(_index: u64) -> Profile {
     let mut p = Profile::base("w");
     p.p_fault_free = 0.3;
@@ -1268,6 +1331,13 @@ pub fn all() -> Vec<Box<dyn Check>> {
         weights: vec![1, 1],
     }));
     v.push(Box::new(crate::tsim::c20::C20Check));
+    // C18 / C20: the control socket's connection task on socket pairs (engine X)
+    for (prop, weight) in [("C18", 100u64), ("C20", 150u64)] {
+        let pos = v.iter().position(|c| c.id() == prop).unwrap();
+        let first = v.remove(pos);
+        let x = Box::new(XCheck { prop, runs_quick: 400, runs_thorough: 60_000 });
+        v.insert(pos, Box::new(Multi { id: prop, parts: vec![first, x], weights: vec![weight, 1] }));
+    }
     v
 }
 
